@@ -15,10 +15,12 @@
 #include "cache_storage.h"
 #include "cache_over_ip.h"
 #include "tcp_cache_server.h"
+#include "tcp_cache_protocol.h"
 #include <cppcms/session_storage.h>
 #include <booster/shared_ptr.h>
 #include <booster/intrusive_ptr.h>
 #include <atomic>
+#include <mutex>
 #include <map>
 #include <set>
 #include <thread>
@@ -27,10 +29,13 @@
 #include <sys/uio.h>
 #include <sys/socket.h>
 #include <netinet/in.h>
+#include <netinet/tcp.h>
 #include <fcntl.h>
 #include <errno.h>
 #include <unistd.h>
 #include <time.h>
+#include <sys/wait.h>
+#include <sys/time.h>
 
 using vr::Outcome; using vr::ok; using vr::bad;
 typedef booster::intrusive_ptr<cppcms::impl::base_cache> cache_ptr;
@@ -134,15 +139,33 @@ static int free_tcp_port() {
     close(s);
     return p;
 }
+// The store a cache service works on: forwards to an in-memory cache that is replaced by a brand-new one at the start of every case, so
+// that every case sees what a freshly started cache server hands out (generation stamps from 0: stamps of different keys, of the two
+// servers and of a node's L1 collide as often as they can).
+struct RenewableCache : public cppcms::impl::base_cache {
+    std::mutex m; cache_ptr inner; std::atomic<int> refs{0};
+    RenewableCache() : inner(cppcms::impl::thread_cache_factory(0)) {}
+    cache_ptr get() { std::lock_guard<std::mutex> g(m); return inner; }
+    void renew() { cache_ptr n = cppcms::impl::thread_cache_factory(0); std::lock_guard<std::mutex> g(m); inner.swap(n); }
+    bool fetch(std::string const &key, std::string *a, sset *tags, time_t *timeout_out, uint64_t *gen) override { return get()->fetch(key, a, tags, timeout_out, gen); }
+    void store(std::string const &key, std::string const &b, sset const &triggers, time_t timeout, uint64_t const *gen) override { get()->store(key, b, triggers, timeout, gen); }
+    void rise(std::string const &trigger) override { get()->rise(trigger); }
+    void remove(std::string const &key) override { get()->remove(key); }
+    void clear() override { get()->clear(); }
+    void stats(unsigned &keys, unsigned &triggers) override { get()->stats(keys, triggers); }
+    void add_ref() override { ++refs; }
+    bool del_ref() override { return --refs == 0; }
+};
 struct Server {
-    cache_ptr cache;                                               // the server-side store, inspected directly
+    booster::intrusive_ptr<RenewableCache> cache;                  // the server-side store, inspected directly
     std::unique_ptr<cppcms::impl::tcp_cache_service> srv;
     int port = 0;
 };
 static Server g_srv[2];
+static void fresh_servers() { g_srv[0].cache->renew(); g_srv[1].cache->renew(); }
 static void start_servers() {
     for (int i = 0; i < 2; i++) {
-        g_srv[i].cache = cppcms::impl::thread_cache_factory(0);
+        g_srv[i].cache = new RenewableCache();
         for (int attempt = 0; attempt < 50 && !g_srv[i].srv; attempt++) {
             int p = free_tcp_port();
             if (!p) continue;
@@ -185,10 +208,11 @@ struct Op {
 
 // Bit mask of (former) defect classes that are searched.  Both are fixed in /repo and searched by default; a class is excluded by
 // construction again only while known_findings.json lists it as an open finding (props/c10.py sets C10_EXCLUDE_KNOWN then).
-enum { INC_EMPTYTRIG = 1, INC_TRIGMERGE = 2 };
+enum { INC_EMPTYTRIG = 1, INC_TRIGMERGE = 2, INC_FRAMEWRAP = 4 };
 static int include_mask() {
     std::string s = vr::env("C10_EXCLUDE_KNOWN", "");
-    int m = INC_EMPTYTRIG | INC_TRIGMERGE;
+    int m = INC_EMPTYTRIG | INC_TRIGMERGE | INC_FRAMEWRAP;
+    if (s.find("framewrap") != std::string::npos || s.find("all") != std::string::npos) m &= ~INC_FRAMEWRAP;
     if (s.find("emptytrig") != std::string::npos || s.find("all") != std::string::npos) m &= ~INC_EMPTYTRIG;
     if (s.find("trigmerge") != std::string::npos || s.find("all") != std::string::npos) m &= ~INC_TRIGMERGE;
     return m;
@@ -399,7 +423,7 @@ struct Runner {
         for (int i = 0; i < c.nkeys; i++) if (c.names[i].empty()) return bad("harness:bad-case", "empty key (outside the protocol's domain)");
         // fresh state
         g_now = T0;
-        g_srv[0].cache->clear(); g_srv[1].cache->clear();
+        fresh_servers();
         io::reset((unsigned)c.io_density, (unsigned)c.io_eagain, c.io_seed);
         std::vector<std::string> ips; std::vector<int> ports;
         for (int i = 0; i < c.nserv; i++) { ips.push_back("127.0.0.1"); ports.push_back(g_srv[srv_of(i)].port); }
@@ -492,10 +516,27 @@ struct Runner {
     }
 };
 
+// Safety net, never an oracle: a case that does not come back (a peer blocked for ever in a read after the protocol lost its framing - only
+// seen with mutated libraries) is counted as inconclusive and ends the process unfinished, which the driver reports as a broken check.
+static std::atomic<long long> g_case_started(0);
+static long long mono_s() { struct timespec ts; clock_gettime(CLOCK_MONOTONIC, &ts); return (long long)ts.tv_sec; }
+static void start_watchdog() {
+    long limit = vr::envl("C10_CASE_TIMEOUT_S", 900);
+    std::thread([limit] {
+        for (;;) {
+            sleep(2);
+            long long st = g_case_started.load();
+            if (st && mono_s() - st > limit) { VR.inconclusive++; VR.flush(); fprintf(stderr, "watchdog: a case did not finish within %ld s\n", limit); _exit(0); }
+        }
+    }).detach();
+}
+
 // All library calls of a case happen in a thread of its own: cache_over_ip keeps its connections in a thread_specific_ptr whose
 // content is destroyed at thread exit only.
 template <class F> static Outcome in_thread(F f) {
     Outcome o; std::string what; bool threw = false;
+    g_case_started = mono_s();
+    struct Stop { ~Stop() { g_case_started = 0; } } stop_guard;
     std::thread th([&] { try { o = f(); } catch (std::exception const &e) { threw = true; what = e.what(); } });
     th.join();
     io::density = 0;
@@ -535,10 +576,10 @@ static Outcome p_spread(SpreadCase const &c) {
     VR.eval();
     sset distinct(c.keys.begin(), c.keys.end());
     for (auto &k : c.keys) if (k.empty() || k.find('\0') != std::string::npos || k.size() != c.keys[0].size()) return bad("harness:bad-case", "spread keys must be non-empty, NUL-free, of one length");
-    if (distinct.size() < 48) return bad("harness:bad-case", "spread needs >= 48 distinct keys");
+    if (distinct.size() < 48) return bad("harness:bad-case", "spread needs >= 48 distinct keys");      // never generated (see gen_spread)
     int per[2] = {0, 0};
     Outcome o = in_thread([&]() -> Outcome {
-        g_now = T0; g_srv[0].cache->clear(); g_srv[1].cache->clear(); io::reset(0, 0, 0);
+        g_now = T0; fresh_servers(); io::reset(0, 0, 0);
         std::vector<std::string> ips{"127.0.0.1", "127.0.0.1"}; std::vector<int> ports{g_srv[c.swap ? 1 : 0].port, g_srv[c.swap ? 0 : 1].port};
         cache_ptr a = cppcms::impl::tcp_cache_factory(ips, ports, cppcms::impl::thread_cache_factory(0));
         cache_ptr b = cppcms::impl::tcp_cache_factory(ips, ports, cache_ptr());
@@ -564,6 +605,193 @@ static Outcome p_spread(SpreadCase const &c) {
             std::to_string(distinct.size()) + " distinct keys of length " + std::to_string(c.keys[0].size()) + " all went to one server (" + std::to_string(per[0]) + "/" + std::to_string(per[1]) + ")");
     if (VR.want_sample()) VR.sample("spread: " + std::to_string(distinct.size()) + " keys of length " + std::to_string(c.keys[0].size()) + " -> " + std::to_string(per[0]) + "/" + std::to_string(per[1]));
     return ok();
+}
+
+
+// ---- frames: the server against a peer that does not use cppcms's client.  Every frame is complete at the transport level (header +
+// exactly header.size payload bytes) but its opcode and inner length fields are arbitrary.  Oracle (from the header's field semantics,
+// private/tcp_cache_protocol.h): a store is accepted iff key_len + data_len + triggers_len == size (as numbers) and key_len != 0, and then
+// stores exactly key = payload[0,key_len), value = the next data_len bytes, triggers = the NUL separated rest; anything else is answered
+// `error` and changes nothing; fetch/rise take the whole payload as the name; unknown opcodes and the session opcodes (no session storage
+// configured) are answered `error`.  After every frame the server-side store is compared with the model (direct inspection) — plus ASan.
+struct Frame {
+    unsigned opcode = 0; unsigned kl = 0, dl = 0, tl = 0; long long timeout = 0; int flags = 0; int gen_mode = 0; unsigned long long gen = 0;
+    std::string payload;
+    void encode(vr::CaseWriter &w) const { w.u(opcode).u(kl).u(dl).u(tl).i(timeout).i(flags).i(gen_mode).u(gen).s(payload).nl(); }
+    static Frame decode(vr::CaseReader &r) { Frame f; f.opcode = (unsigned)r.u(); f.kl = (unsigned)r.u(); f.dl = (unsigned)r.u(); f.tl = (unsigned)r.u(); f.timeout = r.i(); f.flags = (int)r.i(); f.gen_mode = (int)r.i(); f.gen = r.u(); f.payload = r.s(); return f; }
+    bool wraps() const {
+        unsigned long long sum = (unsigned long long)kl + dl + tl;
+        return opcode == cppcms::impl::opcodes::store && sum != payload.size() && (unsigned)(sum & 0xffffffffu) == (unsigned)payload.size();
+    }
+};
+struct FrameCase {
+    int include = 0; int io_density = 0, io_eagain = 0; unsigned long long io_seed = 0;
+    std::vector<Frame> frames;
+    void encode(vr::CaseWriter &w) const { w.i(include).i(io_density).i(io_eagain).u(io_seed).i((long long)frames.size()).nl(); for (auto &f : frames) f.encode(w); }
+    static FrameCase decode(vr::CaseReader &r) { FrameCase c; c.include = (int)r.i(); c.io_density = (int)r.i(); c.io_eagain = (int)r.i(); c.io_seed = r.u(); long long n = r.i(); for (long long i = 0; i < n; i++) c.frames.push_back(Frame::decode(r)); return c; }
+};
+struct RawConn {
+    int fd = -1;
+    bool open(int port) {
+        fd = socket(AF_INET, SOCK_STREAM, 0);
+        sockaddr_in a{}; a.sin_family = AF_INET; a.sin_addr.s_addr = htonl(INADDR_LOOPBACK); a.sin_port = htons(port);
+        struct timeval tv; tv.tv_sec = 300; tv.tv_usec = 0;
+        setsockopt(fd, SOL_SOCKET, SO_RCVTIMEO, &tv, sizeof tv);
+        int one = 1; setsockopt(fd, IPPROTO_TCP, TCP_NODELAY, &one, sizeof one);
+        return fd >= 0 && connect(fd, (sockaddr *)&a, sizeof a) == 0;
+    }
+    ~RawConn() { if (fd >= 0) close(fd); }
+    bool send_all(const void *p, size_t n) { const char *c = (const char *)p; while (n) { ssize_t r = ::send(fd, c, n, MSG_NOSIGNAL); if (r <= 0) return false; c += r; n -= (size_t)r; } return true; }
+    int recv_all(void *p, size_t n) { char *c = (char *)p; while (n) { ssize_t r = ::recv(fd, c, n, 0); if (r == 0) return 0; if (r < 0) return (errno == EAGAIN || errno == EWOULDBLOCK) ? -2 : -1; c += r; n -= (size_t)r; } return 1; }
+};
+static Outcome p_frames(FrameCase const &c) {
+    using namespace cppcms::impl;
+    VR.eval();
+    g_now = T0; fresh_servers();
+    io::reset((unsigned)c.io_density, (unsigned)c.io_eagain, c.io_seed);
+    struct Done { ~Done() { io::density = 0; g_case_started = 0; } } done_guard;
+    g_case_started = mono_s();
+    RawConn conn;
+    if (!conn.open(g_srv[0].port)) return bad("harness:connect", "cannot connect to the cache server");
+    Model M; bool nt = false; std::string trace;
+    cache_ptr direct(g_srv[0].cache.get());
+    int idx = 0;
+    for (auto const &f : c.frames) {
+        idx++;
+        if (f.wraps() && !(c.include & INC_FRAMEWRAP)) { VR.excl("store-frame-lengths-wrap-32-bits"); continue; }
+        tcp_operation_header h; memset(&h, 0, sizeof h);
+        h.opcode = f.opcode; h.size = (uint32_t)f.payload.size();
+        uint64_t cur_gen = 0; bool have_gen = direct->fetch(f.payload, 0, 0, 0, &cur_gen);
+        uint64_t sent_gen = f.gen_mode == 1 && have_gen ? cur_gen : f.gen;
+        switch (f.opcode) {
+        case opcodes::fetch: h.operations.fetch.current_gen = sent_gen; h.operations.fetch.key_len = f.kl; h.operations.fetch.transfer_triggers = f.flags & 1; h.operations.fetch.transfer_if_not_uptodate = (f.flags >> 1) & 1; break;
+        case opcodes::rise: h.operations.rise.trigger_len = f.kl; break;
+        case opcodes::store: default: h.operations.store.timeout = T0 + f.timeout; h.operations.store.key_len = f.kl; h.operations.store.data_len = f.dl; h.operations.store.triggers_len = f.tl; break;
+        }
+        std::string what = "frame " + std::to_string(idx) + " {" + opcodes::to_name((int)f.opcode) + "(" + std::to_string(f.opcode) + ") size=" + std::to_string(f.payload.size()) + " key_len=" + std::to_string(f.kl) + " data_len=" + std::to_string(f.dl) +
+                           " triggers_len=" + std::to_string(f.tl) + " payload=" + vr::show(f.payload, 48) + "}";
+        trace += what + "; ";
+        std::string wire((const char *)&h, sizeof h); wire += f.payload;      // one send: no Nagle / delayed-ACK stall between header and payload
+        if (!conn.send_all(wire.data(), wire.size())) return bad("frames:connection-lost", "the server closed the connection before " + what);
+        tcp_operation_header r; memset(&r, 0, sizeof r);
+        int got = conn.recv_all(&r, sizeof r);
+        if (got == -2) { VR.inconclusive++; return ok(); }
+        if (got != 1) return bad("frames:no-reply", "no reply / connection closed after " + what + " || " + trace);
+        if (r.size > (1u << 24)) return bad("frames:reply-size-absurd", what);
+        std::string body(r.size, '\0');
+        if (r.size) { got = conn.recv_all(&body[0], r.size); if (got == -2) { VR.inconclusive++; return ok(); } if (got != 1) return bad("frames:no-reply", "reply payload missing after " + what); }
+        long long now = g_now.load();
+        auto expect_op = [&](unsigned op, const char *sig) -> Outcome {
+            if (r.opcode != op) return bad(sig, what + " answered " + opcodes::to_name((int)r.opcode) + "(" + std::to_string(r.opcode) + "), expected " + opcodes::to_name((int)op) + " || " + trace);
+            return ok();
+        };
+        Outcome o = ok();
+        // fetch/rise/clear/stats frames whose unused length field or payload is odd: a server that refuses them (error, nothing changed) is as
+        // acceptable as one that ignores the oddity; what it must not do is anything else
+        bool odd = ((f.opcode == opcodes::fetch || f.opcode == opcodes::rise) && f.kl != f.payload.size()) || ((f.opcode == opcodes::clear || f.opcode == opcodes::stats) && !f.payload.empty());
+        bool refused = odd && r.opcode == opcodes::error;
+        if (odd) VR.cls(refused ? "frames.odd_frame_refused" : "frames.odd_frame_served");
+        if (!refused) switch (f.opcode) {
+        case opcodes::store: {
+            unsigned long long sum = (unsigned long long)f.kl + f.dl + f.tl;
+            bool valid = sum == f.payload.size() && f.kl != 0;
+            if (!valid) { VR.cls(f.wraps() ? "frames.store_lengths_wrap" : "frames.store_lengths_lie"); nt = true; o = expect_op(opcodes::error, "server:store-frame-with-wrong-lengths-accepted"); break; }
+            std::string key = f.payload.substr(0, f.kl), val = f.payload.substr(f.kl, f.dl), tr = f.payload.substr(f.kl + f.dl);
+            sset t; bool terminated = tr.empty() || tr.back() == '\0';
+            for (size_t p = 0; p < tr.size();) { size_t e = tr.find('\0', p); if (e == std::string::npos) e = tr.size(); t.insert(tr.substr(p, e - p)); p = e + 1; }
+            if (!terminated && r.opcode == opcodes::error) { VR.cls("frames.store_unterminated_trigger_refused"); break; }   // either answer is acceptable
+            VR.cls(terminated ? "frames.store_valid" : "frames.store_unterminated_trigger_accepted");
+            o = expect_op(opcodes::done, "server:valid-store-frame-refused");
+            M.store(-1, key, val, t, T0 + f.timeout);
+            break; }
+        case opcodes::fetch: {
+            Entry const *e = M.live(f.payload, now);
+            if (!e) { VR.cls("frames.fetch_miss"); o = expect_op(opcodes::no_data, "server:fetch-frame-wrong-answer"); break; }
+            if ((f.flags & 2) && sent_gen == cur_gen) { VR.cls("frames.fetch_uptodate"); o = expect_op(opcodes::uptodate, "server:fetch-frame-wrong-answer"); if (o.ok() && r.size) o = bad("server:fetch-frame-wrong-answer", "uptodate with payload"); break; }
+            VR.cls("frames.fetch_data");
+            o = expect_op(opcodes::data, "server:fetch-frame-wrong-answer");
+            if (!o.ok()) break;
+            std::string exp = e->val; if (f.flags & 1) for (auto &t : e->trig) { exp += t; exp += '\0'; }
+            if (r.operations.data.data_len != e->val.size() || r.operations.data.triggers_len != exp.size() - e->val.size() || body != exp || (long long)r.operations.data.timeout != e->deadline || r.operations.data.generation != cur_gen)
+                o = bad("server:fetch-frame-wrong-data", what + " reply data_len=" + std::to_string(r.operations.data.data_len) + " triggers_len=" + std::to_string(r.operations.data.triggers_len) + " body=" + vr::show(body, 60) + " expected " + vr::show(exp, 60) + " || " + trace);
+            break; }
+        case opcodes::rise: VR.cls("frames.rise"); o = expect_op(opcodes::done, "server:rise-frame-wrong-answer"); M.rise(-1, f.payload); break;
+        case opcodes::clear: VR.cls("frames.clear"); o = expect_op(opcodes::done, "server:clear-frame-wrong-answer"); M.clear(-1); break;
+        case opcodes::stats:
+            VR.cls("frames.stats"); o = expect_op(opcodes::out_stats, "server:stats-frame-wrong-answer");
+            if (o.ok() && (r.operations.out_stats.keys != M.keys() || r.operations.out_stats.triggers != M.triggers())) o = bad("stats:differs", what + " || " + trace);
+            break;
+        default: VR.cls(f.opcode >= opcodes::session_save && f.opcode <= opcodes::session_remove ? "frames.session_opcode_without_storage" : "frames.unknown_opcode"); o = expect_op(opcodes::error, "server:unknown-opcode-not-refused"); break;
+        }
+        if (!o.ok()) return o;
+        // the server-side store equals the model after every frame
+        unsigned k = 0, t = 0; direct->stats(k, t);
+        if (k != M.keys() || t != M.triggers()) return bad("server:store-state-differs-after-frame", "after " + what + " the server holds " + std::to_string(k) + " keys/" + std::to_string(t) + " triggers, model " + std::to_string(M.keys()) + "/" + std::to_string(M.triggers()) + " || " + trace);
+        for (auto &kv : M.m) {
+            std::string v; sset tg; time_t to = 0;
+            bool live = kv.second.deadline >= now;
+            bool hit = direct->fetch(kv.first, &v, &tg, &to, 0);
+            if (hit != live || (hit && (v != kv.second.val || tg != kv.second.trig || (long long)to != kv.second.deadline)))
+                return bad("server:store-state-differs-after-frame", "after " + what + " entry " + vr::show(kv.first, 30) + " is " + (hit ? "value " + vr::show(v, 30) + " triggers " + show_set(tg) : "absent") + ", model value " + vr::show(kv.second.val, 30) + " triggers " + show_set(kv.second.trig) + " || " + trace);
+        }
+    }
+    if (nt) { vr::CaseWriter w; c.encode(w); VR.nontrivial(vr::fnv(w.str())); }
+    if (VR.want_sample()) VR.sample("frames: " + trace.substr(0, 700));
+    return ok();
+}
+static rc::Gen<FrameCase> gen_frames(int inc) {
+    return rc::gen::exec([inc] {
+        using namespace cppcms::impl;
+        FrameCase c; c.include = inc;
+        c.io_density = *rc::gen::weightedElement<int>({{3, 0}, {2, 2}, {2, 7}, {1, 40}});
+        c.io_eagain = c.io_density ? *vr::range<int>(0, 2) : 0;
+        c.io_seed = *rc::gen::arbitrary<uint32_t>();
+        std::vector<std::string> keys{"a", "b", std::string("k\0x", 3), "a-long-key-name-beyond-the-small-string-buffer", "\xff\x01"};
+        std::vector<std::string> trigs{"t", "u", "a", "", "trigger-name-longer-than-the-sso-buffer"};
+        auto weird = rc::gen::elementOf(std::vector<unsigned>{0u, 1u, 2u, 0x7fffffffu, 0x80000000u, 0xfffffffeu, 0xffffffffu, 40u, 0x10000u});
+        int n = *vr::range<int>(1, 14);
+        std::vector<std::string> stored;
+        for (int i = 0; i < n; i++) {
+            Frame f;
+            int kind = *rc::gen::weightedElement<int>({{50, 3}, {20, 0}, {8, 1}, {3, 2}, {5, 4}, {14, 99}});
+            f.opcode = kind == 99 ? *rc::gen::weightedOneOf<unsigned>({{3, vr::range<unsigned>(5, 15)}, {1, rc::gen::elementOf(std::vector<unsigned>{15u, 16u, 255u, 0x80000000u, 0xffffffffu})}}) : (unsigned)kind;
+            std::string key = *rc::gen::elementOf(keys);
+            if (!stored.empty() && f.opcode != opcodes::store && *vr::range<int>(0, 10) < 7) key = *rc::gen::elementOf(stored);
+            if (f.opcode == opcodes::store) {
+                stored.push_back(key);
+                std::string val = value_of(*vr::range<int>(0, 1000), *rc::gen::weightedElement<int>({{2, 0}, {4, 3}, {2, 40}, {1, 300}}));
+                std::string tr; int nt = *rc::gen::weightedElement<int>({{3, 0}, {4, 1}, {2, 2}, {1, 5}});
+                for (int j = 0; j < nt; j++) { tr += *rc::gen::elementOf(trigs); tr += '\0'; }
+                f.kl = (unsigned)key.size(); f.dl = (unsigned)val.size(); f.tl = (unsigned)tr.size();
+                f.payload = key + val + tr;
+                f.timeout = *rc::gen::weightedElement<long long>({{1, -1}, {1, 0}, {6, 1000}});
+                int lie = *rc::gen::weightedElement<int>({{10, 0}, {2, 1}, {2, 2}, {2, 3}, {2, 4}, {2, 5}, {2, 6}, {2, 7}, {2, 8}});
+                switch (lie) {
+                case 1: f.kl += *rc::gen::elementOf(std::vector<unsigned>{1u, 0xffffffffu, 2u}); break;
+                case 2: f.dl += *rc::gen::elementOf(std::vector<unsigned>{1u, 0xffffffffu, 7u}); break;
+                case 3: f.tl += *rc::gen::elementOf(std::vector<unsigned>{1u, 0xffffffffu, 3u}); break;
+                case 4: f.kl = 0; f.dl += (unsigned)key.size(); break;                            // empty key, sum still right
+                case 5: if (!f.payload.empty()) f.payload.pop_back(); break;                      // payload one byte short (a valid store only if it ended in a trigger's NUL... then tl lies)
+                case 6: f.payload += *rc::gen::elementOf(std::vector<std::string>{"x", std::string(1, '\0'), "xy"}); break;
+                case 7: { unsigned w = *weird; int which = *vr::range<int>(0, 3); (which == 0 ? f.kl : which == 1 ? f.dl : f.tl) = w; break; }
+                case 8: {   // lengths whose 32-bit sum equals the frame size although the fields are far too large
+                    unsigned size = (unsigned)f.payload.size(); unsigned a = *weird; if (a == 0) a = 0xffffffffu;
+                    f.kl = a; f.dl = *vr::range<unsigned>(0, 4); f.tl = size - f.kl - f.dl; break; }
+                default: if (!tr.empty() && *vr::range<int>(0, 8) == 0) { f.payload.pop_back(); f.tl--; } break;   // honest, last trigger not NUL-terminated
+                }
+            } else if (f.opcode == opcodes::fetch) {
+                f.payload = key; f.kl = *vr::range<int>(0, 3) ? (unsigned)key.size() : *weird;
+                f.flags = *vr::range<int>(0, 4); f.gen_mode = *vr::range<int>(0, 2); f.gen = *rc::gen::elementOf(std::vector<unsigned long long>{0ull, 1ull, 2ull, 5ull, ~0ull});
+            } else if (f.opcode == opcodes::rise) {
+                f.payload = *vr::range<int>(0, 2) ? *rc::gen::elementOf(trigs) : key; f.kl = *vr::range<int>(0, 3) ? (unsigned)f.payload.size() : *weird;
+            } else {
+                f.payload = *rc::gen::elementOf(std::vector<std::string>{"", "", "x", std::string(32, 's'), std::string(40, '\0')});
+                f.kl = *weird; f.dl = *weird; f.tl = *weird;
+            }
+            c.frames.push_back(f);
+        }
+        return c;
+    });
 }
 
 // ------------------------------------------------------------------------------------------------ generators
@@ -648,17 +876,18 @@ static rc::Gen<Case> gen_case(int max_ops, int inc) {
 }
 
 static rc::Gen<SpreadCase> gen_spread() {
+    // keys are derived from a generated seed with a fixed mixer: whatever the shrinker does to the seed they stay distinct and random-looking
     return rc::gen::exec([] {
         SpreadCase c;
         c.swap = *vr::range<int>(0, 2);
         int len = *rc::gen::weightedOneOf<int>({{3, vr::range<int>(1, 6)}, {3, vr::range<int>(6, 20)}, {1, vr::range<int>(20, 200)}});
         int n = *vr::range<int>(56, 80);
-        auto nz = rc::gen::map(vr::range<int>(1, 256), [](int ch) { return (unsigned char)ch; });
-        sset seen;
-        int guard = 0;
-        while ((int)seen.size() < n && guard++ < 10000) {
-            std::vector<unsigned char> v = *rc::gen::container<std::vector<unsigned char>>(len, nz);
-            std::string k(v.begin(), v.end());
+        uint64_t seed = *rc::gen::arbitrary<uint32_t>();
+        sset seen; uint64_t ctr = 0;
+        while ((int)seen.size() < n) {
+            std::string k((size_t)len, '\0');
+            for (int j = 0; j < len; j++) k[j] = char(1 + io::mix(seed, ctr, (uint64_t)j) % 255);
+            ctr++;
             if (seen.insert(k).second) c.keys.push_back(k);
         }
         return c;
@@ -666,14 +895,37 @@ static rc::Gen<SpreadCase> gen_spread() {
 }
 
 int main(int argc, char **argv) {
+    // --regress FILE (regression case of a finding as part of a normal run) executes in a child: a case that makes the sanitizer abort the
+    // process still gets the signature of its class
+    const char *regress = nullptr;
+    for (int i = 1; i + 1 < argc; i++) if (!strcmp(argv[i], "--regress")) regress = argv[i + 1];
+    if (regress) {
+        fflush(0);
+        pid_t pid = fork();
+        if (pid > 0) {
+            int st = 0; waitpid(pid, &st, 0);
+            if (WIFEXITED(st) && (WEXITSTATUS(st) == 0 || WEXITSTATUS(st) == 1)) return WEXITSTATUS(st);      // the child wrote the report
+            std::string sig = "crash:regression";
+            try {
+                vr::CaseReader rd(vr::read_file(regress));
+                std::string pname = rd.w(); sig += ":" + pname;
+                if (pname == "frames") { FrameCase fc = FrameCase::decode(rd); for (auto &f : fc.frames) if (f.wraps()) sig = "server:store-frame-length-wraparound"; }
+            } catch (std::exception const &) {}
+            VR.eval(); VR.cls("regression-cases");
+            VR.failures.push_back({sig, regress, "the process running this regression case died (sanitizer report / signal), wait status " + std::to_string(st)});
+            VR.finish();
+            return 1;
+        }
+    }
     start_servers();
+    start_watchdog();
     int max_ops = (int)vr::envl("C10_MAX_OPS", vr::thorough() ? 70 : 40);
     std::vector<std::unique_ptr<vr::PropBase>> props;
     props.push_back(vr::prop<Case>("history", gen_case(max_ops, include_mask()), p_history));
     props.push_back(vr::prop<SpreadCase>("spread", gen_spread(), p_spread));
+    props.push_back(vr::prop<FrameCase>("frames", gen_frames(include_mask()), p_frames));
     // --regress FILE: run one saved case as part of a normal run (known-finding regression); a failure is recorded with the file itself as replay
     for (int i = 1; i + 1 < argc; i++) if (!strcmp(argv[i], "--regress")) {
-        vr::install_crash_hooks();
         vr::CaseReader rd(vr::read_file(argv[i + 1]));
         std::string pname = rd.w();
         Outcome o = bad("harness:unknown-property", pname);
